@@ -386,13 +386,175 @@ run_helpers(long item, void *arg)
         n_scans = n_calls = n_hits = 0;
         free_mb_mgr(m);
 }
+
+/* ---------------- direct API: the same residue invariant after every direct call ---------------- */
+static uint64_t
+pcalln(void *fn, int nargs, const uint64_t *args)
+{
+        struct tctx t;
+        memset(&t, 0, sizeof t);
+        t.fn = fn;
+        for (int i = 0; i < nargs && i < 6; i++)
+                t.a[i] = args[i];
+        for (int i = 6; i < nargs; i++)
+                t.sargs[i - 6] = args[i];
+        t.nstack = nargs > 6 ? (uint64_t) (nargs - 6) : 0;
+        t.stktop = stk + STK_SIZE;
+        t.dump = dump;
+        t.zero_regs = 1;
+        vtramp(&t);
+        n_calls++;
+        return t.ret;
+}
+static void
+patn(void *p, size_t n, uint32_t magic, uint32_t *idx)
+{
+        uint8_t *b = p;
+        for (size_t i = 0; i + 4 <= n; i += 4) {
+                b[i] = (uint8_t) (*idx)++;
+                b[i + 1] = (uint8_t) (magic >> 16);
+                b[i + 2] = (uint8_t) (magic >> 8);
+                b[i + 3] = (uint8_t) magic;
+        }
+}
+#define DA(x) ((uint64_t) (uintptr_t) (x))
+#define DCALL(nm, f, ...)                                                                          \
+        do {                                                                                       \
+                snprintf(g_name, sizeof g_name, "direct:%s", nm);                                  \
+                memset(stk, 0xA5, STK_SIZE);                                                       \
+                pcalln((void *) (f), (int) (sizeof((uint64_t[]){ __VA_ARGS__ }) / 8), (uint64_t[]){ __VA_ARGS__ }); \
+                n_scans++;                                                                         \
+                long o_;                                                                           \
+                if ((o_ = find_secret(dump, sizeof dump, KEY_MAGIC)) >= 0)                         \
+                        viol(o_ < 128 ? "gp-registers" : o_ < 2176 ? "vector-registers" : "mask-registers", "key-material", o_, "single direct call", dump[o_]); \
+                if ((o_ = find_secret(stk, STK_SIZE, KEY_MAGIC)) >= 0)                             \
+                        viol("stack", "key-material", STK_SIZE - o_, "single direct call", stk[o_]); \
+                if ((o_ = find_secret(dump, sizeof dump, MSG_MAGIC)) >= 0)                         \
+                        viol(o_ < 128 ? "gp-registers" : o_ < 2176 ? "vector-registers" : "mask-registers", "plaintext", o_, "single direct call", dump[o_]); \
+                if ((o_ = find_secret(stk, STK_SIZE, MSG_MAGIC)) >= 0)                             \
+                        viol("stack", "plaintext", STK_SIZE - o_, "single direct call", stk[o_]);  \
+        } while (0)
+static void
+run_direct(long item, void *arg)
+{
+        (void) arg;
+        g_v = (int) item;
+        if (!variant_usable(g_v))
+                return;
+        m = mgr_new(g_v);
+        mgr_sz = imb_get_mb_mgr_size();
+        static uint8_t pk[8][2048] __attribute__((aligned(64))); /* patterned key objects */
+        static uint8_t pm[16][1024] __attribute__((aligned(64))); /* patterned plaintexts */
+        static uint8_t out[16][1024] __attribute__((aligned(64))), iv[16][16], tag[16][16], aad[16][16];
+        static struct gcm_context_data gctx;
+        static struct chacha20_poly1305_context_data cctx;
+        uint32_t idx = 0;
+        for (int k = 0; k < 8; k++)
+                patn(pk[k], sizeof pk[k], KEY_MAGIC, &idx);
+        idx = 0;
+        for (int k = 0; k < 16; k++) {
+                patn(pm[k], sizeof pm[k], MSG_MAGIC, &idx);
+                fill_rand(iv[k], 16, 40 + (uint64_t) k);
+                fill_rand(aad[k], 16, 60 + (uint64_t) k);
+        }
+        const void *kp[16], *ivp[16], *inp[16], *aadp[16];
+        void *outp[16], *tagp[16];
+        uint32_t l32[16];
+        uint64_t l64[16], kiv[16];
+        static const uint32_t UL[16] = { 37, 19, 64, 5, 41, 16, 33, 8, 100, 3, 77, 48, 250, 1, 129, 60 };
+        for (int k = 0; k < 16; k++) {
+                kp[k] = pk[k % 8];
+                ivp[k] = iv[k];
+                inp[k] = pm[k];
+                aadp[k] = aad[k];
+                outp[k] = out[k];
+                tagp[k] = tag[k];
+                l32[k] = UL[k];
+                l64[k] = UL[k];
+                memcpy(&kiv[k], iv[k], 8);
+        }
+        static const uint32_t LENS[] = { 1, 15, 16, 17, 64, 100, 255, 256, 257, 500, 1000 };
+        void *genc[3] = { (void *) m->gcm128_enc, (void *) m->gcm192_enc, (void *) m->gcm256_enc };
+        void *gdec[3] = { (void *) m->gcm128_dec, (void *) m->gcm192_dec, (void *) m->gcm256_dec };
+        void *ginit[3] = { (void *) m->gcm128_init, (void *) m->gcm192_init, (void *) m->gcm256_init };
+        void *gupd[3] = { (void *) m->gcm128_enc_update, (void *) m->gcm192_enc_update, (void *) m->gcm256_enc_update };
+        void *gfin[3] = { (void *) m->gcm128_enc_finalize, (void *) m->gcm192_enc_finalize, (void *) m->gcm256_enc_finalize };
+        void *minit[3] = { (void *) m->gmac128_init, (void *) m->gmac192_init, (void *) m->gmac256_init };
+        void *mupd[3] = { (void *) m->gmac128_update, (void *) m->gmac192_update, (void *) m->gmac256_update };
+        void *mfin[3] = { (void *) m->gmac128_finalize, (void *) m->gmac192_finalize, (void *) m->gmac256_finalize };
+        for (unsigned li = 0; li < sizeof LENS / sizeof LENS[0]; li++) {
+                uint32_t l = LENS[li];
+                for (int k = 0; k < 3; k++) {
+                        DCALL("gcm-enc", genc[k], DA(pk[0]), DA(&gctx), DA(out[0]), DA(pm[0]), l, DA(iv[0]), DA(aad[0]), 13, DA(tag[0]), 16);
+                        DCALL("gcm-dec", gdec[k], DA(pk[0]), DA(&gctx), DA(out[1]), DA(out[0]), l, DA(iv[0]), DA(aad[0]), 13, DA(tag[1]), 16);
+                        DCALL("gcm-init", ginit[k], DA(pk[0]), DA(&gctx), DA(iv[0]), DA(aad[0]), 13);
+                        DCALL("gcm-enc-update", gupd[k], DA(pk[0]), DA(&gctx), DA(out[0]), DA(pm[0]), l / 2 + 1);
+                        DCALL("gcm-enc-update", gupd[k], DA(pk[0]), DA(&gctx), DA(out[0] + l / 2 + 1), DA(pm[0] + l / 2 + 1), l - l / 2);
+                        DCALL("gcm-enc-finalize", gfin[k], DA(pk[0]), DA(&gctx), DA(tag[0]), 16);
+                        DCALL("gmac-init", minit[k], DA(pk[0]), DA(&gctx), DA(iv[0]), 12);
+                        DCALL("gmac-update", mupd[k], DA(pk[0]), DA(&gctx), DA(aad[0]), 13);
+                        DCALL("gmac-finalize", mfin[k], DA(pk[0]), DA(&gctx), DA(tag[0]), 16);
+                }
+                DCALL("ghash", m->ghash, DA(pk[0]), DA(out[0]), l, DA(tag[0]), 16);
+                DCALL("chacha20-poly1305-init", m->chacha20_poly1305_init, DA(pk[0]), DA(&cctx), DA(iv[0]), DA(aad[0]), 13);
+                DCALL("chacha20-poly1305-enc-update", m->chacha20_poly1305_enc_update, DA(pk[0]), DA(&cctx), DA(out[0]), DA(pm[0]), l);
+                DCALL("chacha20-poly1305-finalize", m->chacha20_poly1305_finalize, DA(&cctx), DA(tag[0]), 16);
+                DCALL("zuc-eea3-1-buffer", m->eea3_1_buffer, DA(pk[0]), DA(iv[0]), DA(pm[0]), DA(out[0]), l);
+                DCALL("zuc-eia3-1-buffer", m->eia3_1_buffer, DA(pk[0]), DA(iv[0]), DA(out[1]), l * 8 - 3, DA(tag[0]));
+                DCALL("snow3g-f8-1-buffer", m->snow3g_f8_1_buffer, DA(pk[0]), DA(iv[0]), DA(pm[0]), DA(out[0]), l);
+                DCALL("snow3g-f8-1-buffer-bit", m->snow3g_f8_1_buffer_bit, DA(pk[0]), DA(iv[0]), DA(pm[0]), DA(out[0]), l * 8 - 3, 5);
+                DCALL("snow3g-f9-1-buffer", m->snow3g_f9_1_buffer, DA(pk[0]), DA(iv[0]), DA(out[1]), l * 8 - 3, DA(tag[0]));
+                DCALL("kasumi-f8-1-buffer", m->f8_1_buffer, DA(pk[0]), kiv[0], DA(pm[0]), DA(out[0]), l);
+                DCALL("kasumi-f8-1-buffer-bit", m->f8_1_buffer_bit, DA(pk[0]), kiv[0], DA(pm[0]), DA(out[0]), l * 8 - 3, 5);
+                DCALL("kasumi-f9-1-buffer", m->f9_1_buffer, DA(pk[0]), DA(out[1]), l + 9, DA(tag[0]));
+                DCALL("kasumi-f9-1-buffer-user", m->f9_1_buffer_user, DA(pk[0]), kiv[0], DA(out[1]), l * 8 - 3, DA(tag[0]), 1);
+        }
+        for (uint32_t l = 1; l <= 16; l++) {
+                DCALL("aes128-cfb-one", m->aes128_cfb_one, DA(out[0]), DA(pm[0]), DA(iv[0]), DA(pk[0]), l);
+                DCALL("aes256-cfb-one", m->aes256_cfb_one, DA(out[0]), DA(pm[0]), DA(iv[0]), DA(pk[0]), l);
+                if (l <= 8)
+                        DCALL("des-cfb-one", des_cfb_one, DA(out[0]), DA(pm[0]), DA(iv[0]), DA(pk[0]), l);
+        }
+        /* multi-buffer direct functions: unequal lengths */
+        DCALL("zuc-eea3-4-buffer", m->eea3_4_buffer, DA(kp), DA(ivp), DA(inp), DA(outp), DA(l32));
+        for (int n = 1; n <= 16; n += (n < 4 ? 1 : 3)) {
+                DCALL("zuc-eea3-n-buffer", m->eea3_n_buffer, DA(kp), DA(ivp), DA(inp), DA(outp), DA(l32), (uint64_t) n);
+                DCALL("zuc-eia3-n-buffer", m->eia3_n_buffer, DA(kp), DA(ivp), DA(outp), DA(l32), DA(tagp), (uint64_t) n);
+                DCALL("snow3g-f8-n-buffer", m->snow3g_f8_n_buffer, DA(pk[0]), DA(ivp), DA(inp), DA(outp), DA(l32), (uint64_t) n);
+                DCALL("snow3g-f8-n-buffer-multikey", m->snow3g_f8_n_buffer_multikey, DA(kp), DA(ivp), DA(inp), DA(outp), DA(l32), (uint64_t) n);
+                DCALL("kasumi-f8-n-buffer", m->f8_n_buffer, DA(pk[0]), DA(kiv), DA(inp), DA(outp), DA(l32), (uint64_t) n);
+        }
+        DCALL("snow3g-f8-2-buffer", m->snow3g_f8_2_buffer, DA(pk[0]), DA(iv[0]), DA(iv[1]), DA(pm[0]), DA(out[0]), 37, DA(pm[1]), DA(out[1]), 19);
+        DCALL("snow3g-f8-4-buffer", m->snow3g_f8_4_buffer, DA(pk[0]), DA(iv[0]), DA(iv[1]), DA(iv[2]), DA(iv[3]), DA(pm[0]), DA(out[0]), 37, DA(pm[1]), DA(out[1]), 19,
+              DA(pm[2]), DA(out[2]), 64, DA(pm[3]), DA(out[3]), 5);
+        DCALL("snow3g-f8-8-buffer", m->snow3g_f8_8_buffer, DA(pk[0]), DA(iv[0]), DA(iv[1]), DA(iv[2]), DA(iv[3]), DA(iv[4]), DA(iv[5]), DA(iv[6]), DA(iv[7]), DA(pm[0]),
+              DA(out[0]), 37, DA(pm[1]), DA(out[1]), 19, DA(pm[2]), DA(out[2]), 64, DA(pm[3]), DA(out[3]), 5, DA(pm[4]), DA(out[4]), 41, DA(pm[5]), DA(out[5]), 16,
+              DA(pm[6]), DA(out[6]), 33, DA(pm[7]), DA(out[7]), 8);
+        DCALL("snow3g-f8-8-buffer-multikey", m->snow3g_f8_8_buffer_multikey, DA(kp), DA(ivp), DA(inp), DA(outp), DA(l32));
+        DCALL("kasumi-f8-2-buffer", m->f8_2_buffer, DA(pk[0]), kiv[0], kiv[1], DA(pm[0]), DA(out[0]), 37, DA(pm[1]), DA(out[1]), 19);
+        DCALL("kasumi-f8-3-buffer", m->f8_3_buffer, DA(pk[0]), kiv[0], kiv[1], kiv[2], DA(pm[0]), DA(out[0]), DA(pm[1]), DA(out[1]), DA(pm[2]), DA(out[2]), 37);
+        DCALL("kasumi-f8-4-buffer", m->f8_4_buffer, DA(pk[0]), kiv[0], kiv[1], kiv[2], kiv[3], DA(pm[0]), DA(out[0]), DA(pm[1]), DA(out[1]), DA(pm[2]), DA(out[2]),
+              DA(pm[3]), DA(out[3]), 37);
+        for (int n = 1; n <= 9; n += 4) {
+                DCALL("quic-aes-gcm", imb_quic_aes_gcm, DA(m), DA(pk[0]), 16, IMB_DIR_ENCRYPT, DA(outp), DA(inp), DA(l64), DA(ivp), DA(aadp), 11, DA(tagp), 16, (uint64_t) n);
+                DCALL("quic-aes-gcm-256", imb_quic_aes_gcm, DA(m), DA(pk[0]), 32, IMB_DIR_ENCRYPT, DA(outp), DA(inp), DA(l64), DA(ivp), DA(aadp), 11, DA(tagp), 16, (uint64_t) n);
+                DCALL("quic-chacha20-poly1305", imb_quic_chacha20_poly1305, DA(m), DA(pk[0]), IMB_DIR_ENCRYPT, DA(outp), DA(inp), DA(l64), DA(ivp), DA(aadp), 9, DA(tagp), (uint64_t) n);
+                DCALL("quic-hp-aes-ecb", imb_quic_hp_aes_ecb, DA(m), DA(pk[0]), DA(outp), DA(ivp), (uint64_t) n, 16);
+                DCALL("quic-hp-chacha20", imb_quic_hp_chacha20, DA(m), DA(pk[0]), DA(outp), DA(ivp), (uint64_t) n);
+        }
+        stat_add("evaluations", n_scans);
+        stat_add("distinct_nontrivial", n_scans);
+        stat_add("direct_calls", n_scans);
+        n_scans = n_calls = n_hits = 0;
+        free_mb_mgr(m);
+}
 static void
 crashed(long item, int sig, void *arg)
 {
         rec_begin("viol");
         rec_s("site", sig == 14 ? "hang" : "crash");
         rec_i("signal", sig);
-        rec_s("alg", arg ? "key-helper" : UNITS[item / NVARIANTS].name);
+        rec_s("alg", arg == (void *) 2 ? "direct-api" : arg ? "key-helper" : UNITS[item / NVARIANTS].name);
         rec_s("variant", VARIANTS[arg ? item : item % NVARIANTS].name);
         rec_end();
 }
@@ -434,6 +596,7 @@ main(void)
         }
         par_run((long) NUNITS * NVARIANTS, n_workers(), run_unit_variant, crashed, NULL, 600);
         par_run(NVARIANTS, n_workers(), run_helpers, crashed, (void *) 1, 600);
+        par_run(NVARIANTS, n_workers(), run_direct, crashed, (void *) 2, 600);
         rec_begin("meta");
         rec_s("rule", "case = (suite, variant, schedule 'n jobs of unequal lengths then flush', n = 1..17); invariant evaluated after "
                       "every call that leaves the queue empty: no 8-byte window of two consecutive secret words (key objects "
